@@ -443,7 +443,7 @@ def shared_run(seed, tier, log=print):
         for k, (prog, text, exp) in enumerate(plan_gen.directed_varfields()):
             cases.append(("varfield-%d" % k, prog, text, {"directed_varfield": 1}, "varfield"))
             case_expect["varfield-%d" % k] = exp
-        for fam, gen in (("shadow", plan_gen.directed_shadowing), ("smartboth", plan_gen.directed_smart_both), ("fwd", plan_gen.directed_forward)):
+        for fam, gen in (("shadow", plan_gen.directed_shadowing), ("smartboth", plan_gen.directed_smart_both), ("fwd", plan_gen.directed_forward), ("samename", plan_gen.directed_same_name)):
             for k, (prog, text, exp) in enumerate(gen()):
                 cases.append(("%s-%d" % (fam, k), prog, text, {"directed_" + fam: 1}, fam))
                 case_expect["%s-%d" % (fam, k)] = exp
